@@ -43,6 +43,34 @@ CHECKS = {
          "Exploration: ~12 k (quick) / 500 k (thorough) calls over equal, opposite and identity operands and scalars {0, n-1, n, n+1, n+2, 2n, 2^256-1, leading zeros, 1..40 bytes}.",
          "Trusts math/big and harness/oracle/weier (self-tested on published multiples of G and against crypto/elliptic P-256).",
          "DESIGN.md §3 C17"),
+ "C06": ("runtime monitor over recorded operation histories: each Absorb/Squeeze/Clone/Reset of a seeded history is mirrored on independent single-lane Curl-P-81 sponges (executable model) and every squeezed lane compared; default (assembly) and purego builds, digests compared",
+         "Exploration: ~1 k (quick) / 48 k (thorough) histories per build over batch sizes 1..64, split absorbs, repeated squeezes, clones continued differently, resets, rejected calls (state must stay untouched).",
+         "Trusts harness/oracle/curlp (self-tested on published Curl-P-81 hashes). Lanes beyond the absorbed batch and absorb-after-squeeze are outside the statement.",
+         "DESIGN.md §3 C06"),
+ "C11": ("runtime monitor: every nonce returned by Mine re-scored with the package's and an independent model score; process-survival monitor (child process per shard, case-in-flight slot); Score and the bit-plane lane test (hook) against exact definitions",
+         "Exploration: ~2.4 k (quick) / 130 k (thorough) Mine calls with targets at, +-1 and +-2 ulp around 3^k/len, below 1/len, zero and negative, 1..16 workers; 40 k / 2 M Score calls; 40 k / 2 M crafted lane states.",
+         "Trusts BLAKE2b, float64 arithmetic and harness/oracle/curlp. Boundaries for k > 9 are not mined (cost 3^k).",
+         "DESIGN.md §3 C11"),
+ "C12": ("runtime monitor: lane verdicts of checkStateTrits (hook) on crafted bit-plane states judged by exact big-integer difficulty (sound / nothing passed over with margin); single-worker Mine scans re-hashed block by block by the model; Score and toInt against definitions",
+         "Exploration: ~60 k (quick) / 3 M (thorough) crafted 64-lane states incl. hashes at T-1, T, T+1 and difficulty exactly lx, ~250 / 12 k Mine runs (every skipped nonce re-hashed), 20 k / 1 M Score and toInt calls.",
+         "Trusts BLAKE2b, math/big and harness/oracle/curlp. s and T are taken from the real code and not asserted. Score's big-integer fall-back is unreachable.",
+         "DESIGN.md §3 C12"),
+ "C13": ("race detector (go build -race) plus runtime monitors over boundary event logs: result/ordering monitor, bounded-return monitor with goroutine-dump classification, goroutine-accounting (leak) monitor, under stress (worker counts, simultaneous finds, cancellation instants, GOMAXPROCS, CPU hogs, delays injected in a harness context)",
+         "Exploration: ~1.6 k (quick) / 60 k (thorough) executions per build (race and default) of both Mine versions; evidence lists the observed orderings of CALL/DONE-CALLED/CANCEL-ISSUED/RETURN, outcomes and race-log counts.",
+         "Interleavings are sampled, not enumerated (no controlled scheduler; rr unavailable). Watchdog bounds 30 s / 2.5 s are orders of magnitude above expected latencies.",
+         "DESIGN.md §3 C13"),
+ "C14": ("runtime monitor: exhaustive group tables (all 256 bytes, 729 b1t6 and 6561 b1t8 groups) and sequence-level codec model; error sentinel and decoded-count monitors",
+         "Exploration with an exhaustive part (exhaustive: true for all groups) plus ~1.1 M (quick) / 67 M (thorough) multi-group sequences with an invalid group at every position and every remainder length.",
+         "Trusts harness/oracle/tern (self-tested by brute-force enumeration and TIP-5 vectors). Non-trit inputs are documented as undefined and not generated.",
+         "DESIGN.md §3 C14"),
+ "C15": ("runtime monitor: Hash compared with an independent bottom-up tree construction for every leaf count; model-generated RFC 6962 audit paths verified against the library's root; instrumented leaves log marshaling calls and inject errors",
+         "Exploration: every n in 0..1500 (quick) / 0..20000 (thorough) plus 2^k-1, 2^k, 2^k+1, four hash functions, ~13 k / 1 M cases.",
+         "Trusts SHA-2/SHA-1/BLAKE2b and harness/oracle/merklem (self-tested against the recursive RFC 6962 definition and CT reference roots).",
+         "DESIGN.md §3 C15"),
+ "C20": ("guard-page sanitizer written for this task (mmap/mprotect arenas, buffers flush against upper and lower guards, SetPanicOnFault, canaries) around the assembly routine, plus a three-way differential (assembly, portable, per-lane definition) and cross-build digest comparison",
+         "Exploration: ~4 k (quick) / 60 k (thorough) states per build, every one fenced in both placements and compared on all 2x729 words with 81 rounds of the round function per lane; the routine has no data-dependent control flow or addresses, so each fenced execution observes every access it can make.",
+         "Trusts the per-lane model (self-tested against the Curl-P truth table and oracle/curlp). The fence sees accesses within 1 MiB of a buffer; amd64 only.",
+         "DESIGN.md §3 C20"),
 }
 
 NOT_BUILT_REASON = "check not built yet in this round (planned in DESIGN.md §3; runtime monitoring does apply)"
